@@ -376,6 +376,107 @@ func runC02(p *core.Prog, r *core.Report) {
 			return []string{"no-garbage-key-yet", "not-removed-yet"}
 		}})
 	}
+	// ---------------- R8 the delete side is complete
+	r8 := r.Rule("C02.R8", "deleteMetadata succeeds only with every counted quantity of the removed entry taken out: Phy-- unless the PHY marker is absent; payload decreased unless the marker is absent or the entry had a garbage mark; GC-- unless no garbage key; Root/TS/Lock/Link-- unless the type (and ROOT marker) says otherwise", 7)
+	if del := p.Func(mb + "deleteMetadata"); del == nil {
+		r.Fatalf("C02.R8: deleteMetadata not found")
+	} else {
+		isTypLoad := func(v ssa.Value) bool {
+			u, ok := v.(*ssa.UnOp)
+			if !ok || u.Op != token.MUL {
+				return false
+			}
+			al, ok := u.X.(*ssa.Alloc)
+			return ok && strings.HasSuffix(al.Type().String(), "object.Type")
+		}
+		typeCmp := func(name string, eq bool) core.Guard {
+			k := typeConst("Type" + name)
+			gn, kind := "type!="+name, core.IsFalse
+			if eq {
+				gn, kind = "type=="+name, core.IsTrue
+			}
+			return core.Guard{Name: gn, Comps: []core.Comp{{Result: -1, Kind: kind}}, Pure: true, Value: func(_ *ssa.Function, v ssa.Value) bool {
+				bo, ok := v.(*ssa.BinOp)
+				if !ok || bo.Op != token.EQL {
+					return false
+				}
+				c, isC := intConstOf(bo.Y)
+				return isC && c == k && isTypLoad(bo.X)
+			}}
+		}
+		done := func(f string) core.Guard {
+			return core.Guard{Name: f + "-taken-out", Comps: []core.Comp{{Result: -1, Kind: core.Executed}}, Instr: func(in ssa.Instruction) bool {
+				v, ok := fieldStore(in, cdiff+f)
+				return ok && deltaSign(v) == "-"
+			}}
+		}
+		// the garbage-key test: the bytes.Equal whose true branch holds the GC decrement
+		var gcStoreBlk *ssa.BasicBlock
+		for _, b := range del.Blocks {
+			for _, in := range b.Instrs {
+				if _, ok := fieldStore(in, cdiff+"GC"); ok {
+					gcStoreBlk = b
+				}
+			}
+		}
+		gcTest := func(s core.Site) bool {
+			c, ok := s.Call.(*ssa.Call)
+			return ok && s.Name == "bytes.Equal" && gcStoreBlk != nil && branchDominates(c, true, gcStoreBlk)
+		}
+		gs := []core.Guard{
+			{Name: "phy-marker-absent", Comps: []core.Comp{{Result: -1, Kind: core.IsNil}}, Match: func(s core.Site) bool {
+				if s.Name != mb+"getObjAttribute" {
+					return false
+				}
+				c, ok := s.Call.Common().Args[2].(*ssa.Const)
+				return ok && c.Value != nil && strings.Contains(c.Value.ExactString(), "$Object:PHY")
+			}},
+			{Name: "no-garbage-key", Comps: []core.Comp{{Result: -1, Kind: core.IsFalse}}, Match: gcTest},
+			{Name: "had-garbage-key", Comps: []core.Comp{{Result: -1, Kind: core.IsTrue}}, Match: gcTest},
+			{Name: "not-root", Pure: true, Comps: []core.Comp{{Result: -1, Kind: core.IsFalse}}, Value: func(_ *ssa.Function, v ssa.Value) bool {
+				ph, ok := v.(*ssa.Phi)
+				if !ok || ph.Type().String() != "bool" {
+					return false
+				}
+				seen := map[*ssa.Phi]bool{}
+				var fromMarker func(ph *ssa.Phi) bool
+				fromMarker = func(ph *ssa.Phi) bool {
+					if seen[ph] {
+						return false
+					}
+					seen[ph] = true
+					for _, e := range ph.Edges {
+						switch x := e.(type) {
+						case *ssa.BinOp:
+							if c, isC := x.Y.(*ssa.Const); isC && x.Op == token.EQL && c.Value != nil && c.Value.ExactString() == `"1"` {
+								return true
+							}
+						case *ssa.Phi:
+							if fromMarker(x) {
+								return true
+							}
+						}
+					}
+					return false
+				}
+				return fromMarker(ph)
+			}},
+			typeCmp("Regular", false), typeCmp("Tombstone", false), typeCmp("Lock", false), typeCmp("Link", false),
+			typeCmp("Regular", true), typeCmp("Tombstone", true), typeCmp("Lock", true), typeCmp("Link", true),
+			done("Phy"), done("Payload"), done("GC"), done("Root"), done("TS"), done("Lock"), done("Link"),
+		}
+		der := []core.Derived{
+			{Name: "phy-accounted", Alts: [][]string{{"phy-marker-absent"}, {"Phy-taken-out"}}},
+			{Name: "payload-accounted", Alts: [][]string{{"phy-marker-absent"}, {"had-garbage-key"}, {"Payload-taken-out"}}},
+			{Name: "gc-accounted", Alts: [][]string{{"no-garbage-key"}, {"GC-taken-out"}}},
+			{Name: "root-accounted", Alts: [][]string{{"type!=Regular"}, {"type==Tombstone"}, {"type==Lock"}, {"type==Link"}, {"not-root"}, {"Root-taken-out"}}},
+			{Name: "ts-accounted", Alts: [][]string{{"type!=Tombstone"}, {"type==Regular"}, {"type==Lock"}, {"type==Link"}, {"TS-taken-out"}}},
+			{Name: "lock-accounted", Alts: [][]string{{"type!=Lock"}, {"type==Regular"}, {"type==Tombstone"}, {"type==Link"}, {"Lock-taken-out"}}},
+			{Name: "link-accounted", Alts: [][]string{{"type!=Link"}, {"type==Regular"}, {"type==Tombstone"}, {"type==Lock"}, {"Link-taken-out"}}},
+		}
+		core.CheckSuccessFn(p, r8, del, core.SuccessRule{ResultIdx: -1, MinReturns: 1, Guards: gs, Derived: der,
+			Need: []string{"phy-accounted", "payload-accounted", "gc-accounted", "root-accounted", "ts-accounted", "lock-accounted", "link-accounted"}})
+	}
 	// ---------------- R7 count once on put
 	r7 := r.Rule("C02.R7", "DB.put changes counters only for an object that is not indexed yet: exists()==(false, nil), or — when exists answered not-found because of a garbage mark — an explicit index probe found nothing", 1)
 	if put := p.Func(mbDB + "put"); put == nil {
